@@ -385,6 +385,8 @@ pub fn c15(ctx: &Ctx) -> PropResult {
     let mut rng = mk_rng(ctx.seed, 15);
     let pre = format!("{}INF <- {}\nNAN <- INF - INF\n", imports(&["MATH", "STRING"]), inf_literal());
     let specials = ["0", "-0", "1", "-1", "0.5", "-0.5", "2", "10", "0.1", "1.5", "2.5", "-2.5", "3.7", "-3.7", "100", "1000000", "9007199254740993", "INF", "-INF", "NAN", "0.999999", "1.000001", "710", "-710", "0.0000001", "123456.789",
+        // exact powers (the logarithm, root or power is a whole number: a quotient of two rounded logarithms is not)
+        "1000", "0.001", "8", "1024", "536870912", "0.125", "1000000000000000000000", "0.00001", "125", "27", "64", "243", "1000000000000000", "4096", "0.0009765625", "81", "16",
         // the constants of the module and their simple multiples (exact zeros of the mathematical functions are not zeros of the doubles)
         "PI()", "TAU()", "PI() / 2", "0 - PI()", "4 * PI()", "PI() / 4", "3 * PI() / 2", "E()", "1 / E()", "PI() / 6", "100 * PI()"];
     let exact = ["ROUND", "FLOOR", "CEIL", "INT", "CLAMP", "PI", "E", "TAU"];
@@ -503,7 +505,7 @@ pub fn c15(ctx: &Ctx) -> PropResult {
     let stats = run_cases(&ctx.driver, cases, &oracle, &no_known, ctx.threads);
     PropResult {
         stats,
-        rule: "every MATH procedure of the live registry on 26 special values (zeros, domain boundaries, huge, inf, NaN) and random decimals; multi-argument procedures with asymmetric random arguments; random decimal literals (1-25 digits, with and without fraction) displayed, converted to text and back (TO_NUMBER of the text == the number, in-language), and combined arithmetically; RANDOM on all integer pairs a <= b in [-3,3] with repeated draws (range and integrality checked in-language on the implementation), edge ranges; compared with the model: output text exact (transcendental functions: both sides call the platform's libm)".into(),
+        rule: "every MATH procedure of the live registry on 26 special values (zeros, domain boundaries, huge, inf, NaN) and random decimals; multi-argument procedures with asymmetric random arguments; random decimal literals (1-25 digits, with and without fraction) displayed, converted to text and back (TO_NUMBER of the text == the number, in-language), and combined arithmetically; RANDOM on all integer pairs a <= b in [-3,3] with repeated draws (range and integrality checked in-language on the implementation), edge ranges; compared with the model: output text exact (transcendental functions: both sides call the platform's libm); exact powers among the arguments; results of procedures libm has are compared exactly, ASINH / ACOSH / ATANH numerically".into(),
         exhaustive: false,
         notes: vec![],
     }
